@@ -1254,16 +1254,24 @@ func (r *replicateChannelHandler) getTSManagerChannelKey(channelName string) str
 }
 
 func (r *replicateChannelHandler) innerHandleReplicateMsg(forward bool, msg *api.ReplicateMsg) {
+	if forward {
+		verifPoint("enter-forward", r.getTSManagerChannelKey(r.targetPChannel), msg)
+	} else {
+		verifPoint("enter", r.getTSManagerChannelKey(r.targetPChannel), msg)
+	}
 	msgPack := msg.MsgPack
 	p := r.handlePack(forward, msgPack, msg.TaskID)
 	if p == api.EmptyMsgPack {
+		verifPoint("done-empty", r.getTSManagerChannelKey(r.targetPChannel), msg)
 		return
 	}
 	p.CollectionID = msg.CollectionID
 	p.CollectionName = msg.CollectionName
 	p.PChannelName = msg.PChannelName
 	p.TaskID = msg.TaskID
+	verifPoint("presend", r.getTSManagerChannelKey(r.targetPChannel), p)
 	GetTSManager().SendTargetMsg(r.getTSManagerChannelKey(r.targetPChannel), p)
+	verifPoint("done", r.getTSManagerChannelKey(r.targetPChannel), p)
 }
 
 func (r *replicateChannelHandler) collectionSourceSeekPosition(
@@ -1737,6 +1745,7 @@ func (r *replicateChannelHandler) handlePack(forward bool, pack *msgstream.MsgPa
 	}
 
 	if forwardChannel != "" {
+		verifPoint("forward", forwardChannel, nil)
 		r.forwardMsgFunc(forwardChannel, api.GetReplicateMsg(streamPChannel, sourceCollectionName, sourceCollectionID, newPack, taskID))
 		return api.EmptyMsgPack
 	}
@@ -1827,6 +1836,7 @@ func (r *replicateChannelHandler) handlePack(forward bool, pack *msgstream.MsgPa
 	msgTime, _ := tsoutil.ParseHybridTs(generateTS)
 	TSMetricVec.WithLabelValues(r.targetPChannel).Set(float64(msgTime))
 	r.ttRateLog.Debug("time tick msg", zap.String("channel", r.targetPChannel), zap.Uint64("max_ts", generateTS))
+	verifPoint("computed", tsManagerChannelKey, &api.ReplicateMsg{CollectionID: sourceCollectionID, MsgPack: newPack})
 	return api.GetReplicateMsg("", sourceCollectionName, sourceCollectionID, newPack, "")
 }
 
